@@ -14,13 +14,13 @@ ENV = dict(os.environ, PATH=os.path.expanduser("~/.cargo/bin") + ":" + os.enviro
 
 def sh(cmd, cwd=None, timeout=3600):
     p = subprocess.run(cmd, shell=True, cwd=cwd, env=ENV, stdout=subprocess.PIPE, stderr=subprocess.STDOUT, text=True,
-                       timeout=timeout)
+                       errors="replace", timeout=timeout)
     return p.returncode, p.stdout
 
 
 def main():
     pid, k = sys.argv[1], sys.argv[2]
-    checks = sys.argv[3:] or [pid]
+    checks = [c for c in sys.argv[3:] if not c.startswith("--")] or [pid]
     wt = "/tmp/wt/%s" % pid
     src = "%s/SEEDED/%s" % (wt, k)
     dst = "%s/seeded/%s-%s" % (VERIF, pid, k)
